@@ -271,14 +271,16 @@ def all_refs(w):
     return out
 
 
-def spec_key(w, s):
+def spec_key(w, s, raw=False):
+    """(file, type, sheet, value label); the file is compared as a location, not as a spelling."""
     io = s.io
     ft = getattr(io, "file_type", None) or type(s).__name__
-    return [s.path.as_posix(), ft, getattr(s, "sheet", None), w.label(s.value) or "?"]
+    p = s.path.as_posix()
+    return [p if raw else norm(p), ft, getattr(s, "sheet", None), w.label(s.value) or "?"]
 
 
 def rec_key(rec):
-    return [rec["path"], rec["type"], rec["sheet"], rec["val"]]
+    return [norm(rec["path"]), rec["type"], rec["sheet"], rec["val"]]
 
 
 def manager_view(w, mname):
@@ -574,7 +576,7 @@ def step(w, op, check):
             continue
         locs = {}
         for s in specs:
-            locs.setdefault((norm(s.path.as_posix()), getattr(s, "sheet", None)), []).append(spec_key(w, s))
+            locs.setdefault((norm(s.path.as_posix()), getattr(s, "sheet", None)), []).append(spec_key(w, s, True))
         byfile = {}
         for s in specs:
             byfile.setdefault(norm(s.path.as_posix()), []).append(s)
@@ -585,7 +587,7 @@ def step(w, op, check):
                 sheets = [getattr(s, "sheet", None) for s in ss]
                 ftypes = {getattr(s.io, "file_type", type(s).__name__) for s in ss}
                 if ftypes != {"excel"} or None in sheets or len({id(s.io) for s in ss}) > 1:
-                    ks = [spec_key(w, s) for s in ss]
+                    ks = [spec_key(w, s, True) for s in ss]
                     if ks not in shared:
                         shared.append(ks)
         if shared:
